@@ -13,7 +13,7 @@ RULE = (
     "workplaces of any capacity, conveyor input links, facility sets, both workplace priority rules, all task "
     "rules) and profile N (one level of nesting in assembly form: every task of a parent component FS-follows every "
     "task of its children; parents carry an unfinished task and a workplace that can always take them; no conveyor "
-    "links), plus a conveyor profile (workplaces chained by input links, each component's tasks targeted by successive workplaces). Components may carry several tasks in any dependency relation. Oracle at every step, on the "
+    "links), plus a conveyor profile (workplaces chained by input links, each component's tasks targeted by successive workplaces) and a sibling profile (one parent, 2-4 children waiting side by side in shared workplaces before the parent collects them). Components may carry several tasks in any dependency relation. Oracle at every step, on the "
     "live snapshots and the logs: workplace contents <=> component placement (hence <= 1 workplace per component); "
     "sum of space sizes of the top-most placed components <= capacity + 1e-8; a component entering a workplace "
     "with declared inputs comes from one of them or from nowhere; <= 1 move per step (every placement assignment "
@@ -166,16 +166,65 @@ def _conveyor(draw, cfg):
     return spec
 
 
+@st.composite
+def _siblings(draw):
+    """Profile N, assembly shape: one parent with 2-4 children; every child has a facility task, the children
+    share 1-2 workplaces (so that siblings wait side by side), the parent's task follows all of them and is
+    targeted by another workplace that can take the whole assembly."""
+    k = draw(st.integers(2, 4))
+    sizes = [draw(st.sampled_from([0.5, 0.5, 1.0])) for _ in range(k)]
+    psize = draw(st.sampled_from([0.5, 1.0, 2.0]))
+    comps = [{"space": psize, "parent": None}] + [{"space": sz, "parent": 0} for sz in sizes]
+    n_extra = draw(st.integers(0, 2))
+    tasks = []
+
+    def task(comp, work, nf=True):
+        return {"work": work, "prog": 0.0, "auto": False, "nf": nf, "comp": comp, "wpr": draw(st.sampled_from([0, 1])), "wr": -1,
+                "fr": 0, "fixw": None, "fixf": None, "due": -1, "rate": 1.0}
+
+    for c in range(1, k + 1):
+        tasks.append(task(c, draw(st.sampled_from([0.5, 1.0, 1.0, 2.0]))))
+    for _ in range(n_extra):
+        tasks.append(task(draw(st.integers(1, k)), draw(st.sampled_from([0.5, 1.0]))))
+    nchild = len(tasks)
+    tasks.append(task(0, draw(st.sampled_from([0.5, 1.0, 2.0])), nf=draw(st.booleans())))
+    ptask = len(tasks) - 1
+    deps = [[i, ptask, 0] for i in range(nchild)]
+    n = len(tasks)
+    shared = draw(st.integers(1, 2))
+    wps = []
+    facs = []
+    for w in range(shared):
+        wps.append({"cap": sum(sizes) + draw(st.sampled_from([0.0, 0.5, 1.0])), "targets": list(range(nchild)), "inputs": []})
+    wps.append({"cap": psize + sum(sizes) + 1.0, "targets": [ptask] + (list(range(nchild)) if draw(st.booleans()) else []), "inputs": []})
+    for w in range(len(wps)):
+        for _ in range(draw(st.integers(1, 2))):
+            facs.append({"wp": w, "cost": 1.0, "solo": False, "skills": {str(i): 1.0 for i in range(n)}, "abs": []})
+    nw = draw(st.integers(1, 3))
+    workers = [
+        {"team": 0, "cost": 1.0, "solo": False, "skills": {str(i): draw(st.sampled_from([0.5, 1.0, 1.0])) for i in range(n)},
+         "fsk": {str(f): 1.0 for f in range(len(facs))}, "abs": [], "mw": None}
+        for _ in range(nw)
+    ]
+    spec = {
+        "tasks": tasks, "deps": deps, "order": list(draw(st.permutations(list(range(n))))), "comps": comps,
+        "teams": [{"targets": list(range(n))}], "workers": workers, "wps": wps, "facs": facs,
+        "opts": {"rule": draw(st.sampled_from(list(range(9)))), "abs": draw(st.lists(st.integers(0, 10), unique=True, max_size=2)),
+                 "auto_abs": False, "max_time": 40},
+    }
+    return spec
+
+
 def strategy(tier):
     if tier == "quick":
-        return st.one_of(_case(CFG_F), _case(CFG_F), _case(CFG_N), _conveyor(CFG_CONV))
+        return st.one_of(_case(CFG_F), _case(CFG_F), _case(CFG_N), _conveyor(CFG_CONV), _siblings())
     big = dict(max_tasks=10, max_comps=6)
-    return st.one_of(_case(CFG_F.copy(**big)), _case(CFG_F.copy(**big)), _case(CFG_N.copy(**big)), _conveyor(CFG_CONV.copy(max_tasks=10, max_comps=4)))
+    return st.one_of(_case(CFG_F.copy(**big)), _case(CFG_F.copy(**big)), _case(CFG_N.copy(**big)), _conveyor(CFG_CONV.copy(max_tasks=10, max_comps=4)), _siblings())
 
 
 def budget(tier):
     if tier == "quick":
-        return {"cases": 2000, "shards": 4}
+        return {"cases": 2500, "shards": 5}
     return {"cases": 150000, "shards": 16}
 
 
